@@ -64,6 +64,24 @@ class Ctx:
     def const(self, data, dtype=torch.float64):
         return torch.tensor(data, dtype=dtype)
 
+    def rotation2(self, name):
+        """a 2x2 rotation Q = [[c, -s], [s, c]] with s free in (-0.95, 0.95) and c a sign-free algebraic atom, c^2 = 1 - s^2
+        (rotations x column sign flips = all orthogonal 2x2; LAPACK's eigenvector signs are not observable anyway)"""
+        import math
+        if self.symbolic:
+            eng = self.eng
+            s_t = eng.leaf(name + "_s", (), lo=-0.9375, hi=0.9375)
+            s_cell = eng.sym(s_t).reshape(-1)[0]
+            sval = float(eng.env[name + "_s"])
+            c_cell = eng.avar(name + "_c", T.sub(1, T.mul(s_cell, s_cell)), math.sqrt(max(1 - sval * sval, 0.0)))
+            cells = np.empty((2, 2), dtype=object)
+            cells[0, 0], cells[0, 1], cells[1, 0], cells[1, 1] = c_cell, T.neg(s_cell), s_cell, c_cell
+            return eng.from_cells(cells)
+        s = float(self.model.get(name + "_s", 0.6))
+        c = float(self.model.get(name + "_c", math.sqrt(max(1 - s * s, 0.0))))
+        c = math.copysign(math.sqrt(max(1 - s * s, 0.0)), c if c != 0 else 1.0)
+        return torch.tensor([[c, -s], [s, c]], dtype=torch.float64)
+
     # ---- obligations
     def eq(self, a, b, label):
         """a, b: tensors that must be equal in value and shape"""
